@@ -310,6 +310,9 @@ func c04Run(c schedCase) (verifkit.Outcome, error) {
 			if s.statuses[i] == DoingStatus && doAfter == 0 && !abortedAfter {
 				return fail("C04: task %d was running (Doing) at the crash and was neither run again nor aborted", i)
 			}
+			if s.statuses[i] == AbortStatus && schedHasUndo(c.Tasks[i].Kind) && undoAfter == 0 {
+				return fail("C04: task %d was running and being aborted (Abort) at the crash, its interrupted work may be partly applied, but its undo never ran after the restart (ended %s)", i, res.final[i])
+			}
 			if s.statuses[i] == UndoingStatus && undoAfter == 0 {
 				return fail("C04: task %d was being undone at the crash and its undo was not run again", i)
 			}
